@@ -324,6 +324,33 @@ def bind_obligations(mir, q, tag):
     return obs, results, stats, time.time() - t0
 
 
+def param_cfg_obligations(mir, n, tag):
+    """C05/C16: is_cfg_enabled(param, lookup) for a query parameter carrying n stacked #[cfg] attributes is
+    the CONJUNCTION of the looked-up truth values (rustc removes the parameter unless all hold)."""
+    lay = Layout()
+    fn = mir.find(lambda it: it.kind == 'fn' and it.name.endswith('is_cfg_enabled') and 'ParseQueryParam' in it.header, 'is_cfg_enabled')
+    P = [z3.Bool('qcfg_pred%d' % p) for p in range(n)]
+    def harness(I):
+        lookup = MapV()
+        for p, b in enumerate(P):
+            lookup.items.append((z3.IntVal(5000 + p), [b]))
+        cfgs = VecV([lay.mk('ParseAttributeCfg', predicate=z3.IntVal(5000 + p)) for p in range(n)])
+        param = lay.mk('ParseQueryParam', cfgs=cfgs, name=z3.IntVal(500), is_mut=z3.BoolVal(False), param_type=Enum('EntityAny', []), is_cfg_enabled=z3.BoolVal(True))
+        return I.exec_fn(fn, [Ref([param]), Ref([lookup])])
+    t0 = time.time()
+    results, stats = explore(mir, lay, harness)
+    want = z3.And(P) if P else z3.BoolVal(True)
+    obs = []
+    for k, (pc, (kind, val)) in enumerate(results):
+        if kind == 'panic':
+            claim = z3.BoolVal(False); what = 'panic path is infeasible (%s)' % str(val)[:50]
+        else:
+            got = val if z3.is_expr(val) else z3.BoolVal(bool(val))
+            claim = got == want; what = 'enabled == conjunction of the %d stacked predicates' % n
+        obs.append(Obligation('%s path %d: %s' % (tag, k, what), pc, claim, {'kind': kind}))
+    return obs, results, stats, time.time() - t0
+
+
 def bind_cfg_metamorphic(mir, q, tag):
     """C16: a parameter whose cfg is disabled behaves as if it had not been written: the query keeps
     exactly the archetypes the erased query keeps; an enabled one behaves as an unannotated one."""
